@@ -1,8 +1,156 @@
-(* placeholder while the proofs are being written *)
-From Coq Require Import QArith List Bool.
-From PL.C24 Require Import ModelLFIUpdate.
+(* C24 -- Learning from interpretations is a monotone EM producing valid parameters.
+   Only statements; every proof is `exact <lemma>`.
+
+   [step norm p exs th] is one iteration of LFI (ModelLFIUpdate.v): exact E-step over all
+   possible worlds of the propositional program p under the parameters th, for the examples
+   exs = list of (multiplicity, partial interpretation), with the 1e-6 posterior clamp of
+   ExampleEvaluator; M-step = LFIProblem._update (expected counts, the 1e-15 floor) followed,
+   when norm = true, by LFIProblem._normalize_weights. *)
+From Coq Require Import QArith List Bool Reals.
+From PL.C24 Require Import ModelLFIUpdate ProofsBasic ProofsRange ProofsMLE ProofsEM.
 Import ListNotations.
 Open Scope Q_scope.
-Theorem C24_clamp_nonneg : forall x, 0 <= x -> 0 <= clamp x.
-Proof. intros x H. unfold clamp. destruct (Qle_bool clampq x); auto. apply Qle_refl. Qed.
-Print Assumptions C24_clamp_nonneg.
+
+(* ------------------------------------------------------------------ every learned parameter is a probability *)
+(* for every well-formed program, every example set with non-negative multiplicities, every
+   starting point in which all outcome weights are probabilities, with or without normalisation *)
+Theorem C24_range : forall norm p exs th,
+  wf_prog p = true -> wf_theta p th = true -> (forall me, In me exs -> 0 <= fst me) ->
+  Forall (fun x => 0 <= x /\ x <= 1) (step norm p exs th).
+Proof. exact step_in01. Qed.
+Print Assumptions C24_range.
+
+Theorem C24_length : forall norm p exs th, length (step norm p exs th) = length th.
+Proof. exact length_step. Qed.
+Print Assumptions C24_length.
+
+(* ------------------------------------------------------------------ AD heads sum to at most the available mass *)
+(* for every clause with at least two tunable heads (the only ones _normalize_weights touches):
+   after one normalised iteration the tunable heads sum to at most 1 - (sum of the constant heads) *)
+Theorem C24_ad_sum : forall p exs th c,
+  wf_prog p = true -> wf_params p (length th) = true -> wf_theta p th = true ->
+  (forall me, In me exs -> 0 <= fst me) ->
+  In c p -> (2 <= length (tun_of c))%nat ->
+  psum (fun i => nth i (step true p exs th) 0) (tun_of c) <= 1 - fixed_sum c.
+Proof. exact ad_sum_le_available. Qed.
+Print Assumptions C24_ad_sum.
+
+(* ... hence all heads of such a clause sum to at most 1, and the updated parameter vector is again
+   a valid starting point (so C24_range / C24_ad_sum hold along the whole run) provided no clause
+   pairs exactly one tunable head with constant heads (that class is refuted in Findings.v) *)
+Theorem C24_ad_total : forall p exs th c,
+  wf_prog p = true -> wf_params p (length th) = true -> wf_theta p th = true ->
+  (forall me, In me exs -> 0 <= fst me) ->
+  In c p -> ad_ok c = true ->
+  heads_sum (step true p exs th) c <= 1.
+Proof. exact heads_sum_step. Qed.
+Print Assumptions C24_ad_total.
+
+Theorem C24_valid_again : forall p exs th,
+  wf_prog p = true -> wf_params p (length th) = true -> wf_theta p th = true ->
+  (forall me, In me exs -> 0 <= fst me) ->
+  forallb ad_ok p = true ->
+  wf_theta p (step true p exs th) = true.
+Proof. exact wf_theta_step. Qed.
+Print Assumptions C24_valid_again.
+
+(* ------------------------------------------------------------------ fully observed => relative frequency *)
+(* i is a tunable fact on its own (group_of p i = [i]: not in an AD with other tunable heads).
+   If in every example (multiplicity >= 1, positive probability, i relevant) the truth value of
+   the fact is determined by the interpretation -- obs e -- in every possible world of non-zero
+   weight consistent with e, then one iteration returns
+        (number of examples with obs = true) / (number of examples),
+   whatever the starting point th (the right-hand side does not mention th). *)
+Theorem C24_fully_observed_mle : forall norm p th i obs exs,
+  group_of p i = [i] ->
+  (forall me, In me exs ->
+     1 <= fst me /\ In i (queried p (snd me)) /\ ~ pevidence th p (snd me) == 0 /\
+     observed p (wtable th p) (snd me) i (obs (snd me)) true) ->
+  exs <> [] -> (i < length th)%nat ->
+  nth i (step norm p exs th) 0 == count_true obs exs / count_all exs.
+Proof. exact mle_fact_step. Qed.
+Print Assumptions C24_fully_observed_mle.
+
+(* ------------------------------------------------------------------ EM monotonicity (over R) *)
+(* Abstract finite mixture: examples exs with weights m, latent worlds zs e, complete-data
+   likelihood f th e z >= 0;  LL th = sum_e m e * ln (sum_z f th e z).
+   (1) the Q-function bound, for ANY such f (Gibbs' inequality is proved, not assumed) *)
+Theorem C24_em_lower_bound : forall (E Z Th : Type) (exs : list E) (m : E -> R) (zs : E -> list Z)
+  (f : Th -> E -> Z -> R),
+  (forall e, In e exs -> (0 <= m e)%R) ->
+  forall th th' : Th,
+  (forall e z, (0 <= f th e z)%R) -> (forall e z, (0 <= f th' e z)%R) ->
+  (forall e, In e exs -> (0 < lik zs f th e)%R) ->
+  (forall e z, In e exs -> In z (zs e) -> (0 < f th e z)%R -> (0 < f th' e z)%R) ->
+  (Qf exs m zs f th th' - Qf exs m zs f th th <= LL exs m zs f th' - LL exs m zs f th)%R.
+Proof. exact em_lower_bound. Qed.
+Print Assumptions C24_em_lower_bound.
+
+(* (2) the update  th' k = avail * c k / sum c  maximises sum_k c k * ln (th k) over sum th <= avail *)
+Theorem C24_mstep_categorical : forall (ks : list nat) (c th : nat -> R) (avail : R),
+  (0 < avail)%R ->
+  (forall k, In k ks -> (0 <= c k)%R) -> (forall k, In k ks -> (0 <= th k)%R) ->
+  (forall k, In k ks -> (0 < c k)%R -> (0 < th k)%R) ->
+  (sumR th ks <= avail)%R -> (0 < sumR c ks)%R ->
+  (sumR (fun k => c k * ln (th k)) ks <= sumR (fun k => c k * ln (avail * c k / sumR c ks)) ks)%R.
+Proof. exact mstep_categorical. Qed.
+Print Assumptions C24_mstep_categorical.
+
+(* (3) EM is monotone for one tunable block (a tunable fact = block {true,false} with avail = 1, or
+   the tunable heads of one AD with avail = 1 - constant heads) inside an arbitrary fixed context:
+   f th e z = a e z * (th k) when world z activates outcome k of the block (kap e z = Some k),
+   a e z when the block's body is false in z (kap e z = None).  The update is exactly LFI's
+   normalised expected-count update.
+
+   FULL STATEMENT NOT PROVED (hence _partial): LL (step true p exs th) >= LL th for the model's
+   [step] on every program with SEVERAL tunable blocks, where LL th = sum_e m_e * ln (pevidence th p e),
+   with the 1e-6 clamp and the 1e-15 floor inactive.  Missing: the regrouping of the Q-function over
+   several blocks and the instantiation of (a, kap) by the world table of ModelLFIUpdate. *)
+Theorem C24_em_monotone_partial : forall (E Z : Type) (exs : list E) (m : E -> R) (zs : E -> list Z)
+  (a : E -> Z -> R) (kap : E -> Z -> option nat) (ks : list nat) (avail : R),
+  NoDup ks ->
+  (forall e z k, In e exs -> In z (zs e) -> kap e z = Some k -> In k ks) ->
+  (forall e, In e exs -> (0 <= m e)%R) -> (forall e z, (0 <= a e z)%R) ->
+  (0 < avail)%R ->
+  forall th : nat -> R,
+  (forall k, (0 <= th k)%R) -> (sumR th ks <= avail)%R ->
+  (forall e, In e exs -> (0 < lik zs (fblock a kap) th e)%R) ->
+  (0 < sumR (counts exs m zs a kap th) ks)%R ->
+  (forall k, In k ks -> (0 < th k)%R -> (0 < counts exs m zs a kap th k)%R) ->
+  (LL exs m zs (fblock a kap) th <=
+   LL exs m zs (fblock a kap) (em_update exs m zs a kap ks avail th))%R.
+Proof. exact em_monotone_one_block. Qed.
+Print Assumptions C24_em_monotone_partial.
+
+(* ------------------------------------------------------------------ non-vacuity *)
+(* t(th)::f.   examples: f three times, \+f once *)
+Definition ex_prog : program := [Clause [(0%nat, HTun 0)] []].
+Definition ex_data : list (Q * example) := [(3, [(0%nat, true)]); (1, [(0%nat, false)])].
+Example C24_example_mle :
+  step true ex_prog ex_data [1 # 10] = [3 # 4] /\ step false ex_prog ex_data [9 # 10] = [3 # 4].
+Proof. vm_compute. split; reflexivity. Qed.
+
+Example C24_example_mle_hyps :
+  group_of ex_prog 0 = [0%nat] /\
+  (forall me, In me ex_data ->
+     1 <= fst me /\ In 0%nat (queried ex_prog (snd me)) /\ ~ pevidence [1 # 10] ex_prog (snd me) == 0 /\
+     observed ex_prog (wtable [1 # 10] ex_prog) (snd me) 0
+              (match snd me with [(_, b)] => b | _ => false end) true).
+Proof. exact example_hyps. Qed.
+
+(* t(0.3)::a. t(0.2)::b; t(0.5)::c. t(0.4)::d :- a. q :- a, b. q :- c.  with partial interpretations *)
+Definition ex_prog2 : program := [
+  Clause [(0%nat, HTun 0)] [];
+  Clause [(1%nat, HTun 1); (2%nat, HTun 2)] [];
+  Clause [(3%nat, HTun 3)] [(0%nat, true)];
+  Clause [(4%nat, HDet)] [(0%nat, true); (1%nat, true)];
+  Clause [(4%nat, HDet)] [(2%nat, true)]].
+Definition ex_data2 : list (Q * example) := [
+  (1, [(4%nat, true); (0%nat, true)]); (1, [(4%nat, false)]);
+  (1, [(2%nat, true); (3%nat, true); (1%nat, false)]);
+  (1, [(0%nat, true); (1%nat, true); (2%nat, false); (3%nat, false)])].
+Example C24_example_step :
+  wf_prog ex_prog2 = true /\ wf_params ex_prog2 4 = true /\
+  wf_theta ex_prog2 [3 # 10; 2 # 10; 5 # 10; 4 # 10] = true /\ forallb ad_ok ex_prog2 = true /\
+  step true ex_prog2 ex_data2 [3 # 10; 2 # 10; 5 # 10; 4 # 10] = [141 # 176; 247 # 511; 264 # 511; 1 # 2].
+Proof. vm_compute. repeat split; reflexivity. Qed.
